@@ -24,6 +24,7 @@ use std::path::{Path, PathBuf};
 use std::sync::{Mutex, OnceLock};
 
 const PROP: &str = "C06";
+pub const READ_BUDGET: u32 = 6_000;
 pub const PIPELINES: &[&str] = &["build", "analysis", "lsp", "format"];
 
 fn fragments() -> &'static Vec<String> {
@@ -245,6 +246,12 @@ pub fn gen_case(seed: u64, k: u64) -> Case {
         faults.push(Fault { path, nth: 0, op: Op::Write, kind: if rng.chance(1, 2) { FaultKind::NoSpace } else { FaultKind::PermissionDenied } });
     }
     let pipeline = rng.pick_str(PIPELINES).to_string();
+    if pipeline == "format" && rng.chance(1, 6) {
+        // `mos format` rewrites the source files in place: they may not be writable
+        let t = rng.pick(&targets).clone();
+        let path = disk::normalize(&Path::new(WS).join(&t));
+        faults.push(Fault { path, nth: *rng.pick(&[0u32, 1]), op: Op::Write, kind: if rng.chance(1, 2) { FaultKind::PermissionDenied } else { FaultKind::NoSpace } });
+    }
     Case {
         project,
         faults,
@@ -343,6 +350,16 @@ fn check_locations(d: &Diagnostics, project_paths: &BTreeSet<PathBuf>, stats: &m
 
 fn panic_found(pipeline: &str, stage: &str) -> Found {
     let p = panics::peek();
+    if let Some(b) = p.iter().find(|p| p.message.contains(mos_simrt::disk::READ_BUDGET_MARKER)) {
+        return Found {
+            class: "nonterminating_file_loop".into(),
+            sig: "nonterminating:file_reads".into(),
+            message: format!(
+                "pipeline {} does not terminate: {} (decided on the logical clock of file reads, budget {})",
+                pipeline, b.message, READ_BUDGET
+            ),
+        };
+    }
     let last = p.last();
     let loc = last.map(|p| short_loc(&p.location)).unwrap_or_else(|| "<unknown>".into());
     Found {
@@ -404,6 +421,9 @@ pub fn execute(c: &Case, stats: &mut RunStats) -> Option<Found> {
     env::set_cwd(Some(PathBuf::from(WS)));
     let mut d = c.project.disk();
     d.faults = c.faults.clone();
+    // logical clock for loops over the file system (import discovery): a project of <= 5 files
+    // with a few dozen import statements needs a few hundred reads at most
+    d.read_budget = Some(READ_BUDGET);
     let paths: BTreeSet<PathBuf> = d.files.keys().cloned().collect();
     disk::install(d);
     passwatch::install();
@@ -702,7 +722,7 @@ fn stats_json(agg: &Agg) -> Value {
     json!({
         "runs": agg.runs, "faults_fired": agg.faults_fired, "max_passes": agg.max_passes, "invocations": agg.invocations,
         "diagnostics": agg.diagnostics, "labels_checked": agg.labels_checked, "pipelines": agg.pipelines, "results": agg.results,
-        "runs_with_fault_fired": agg.runs_with_fault, "reads": agg.reads, "pass_histogram": agg.pass_hist,
+        "runs_with_fault_fired": agg.runs_with_fault, "reads": agg.reads, "max_reads": agg.max_reads, "pass_histogram": agg.pass_hist,
     })
 }
 
@@ -718,6 +738,7 @@ struct Agg {
     results: BTreeMap<String, u64>,
     runs_with_fault: u64,
     reads: u64,
+    max_reads: u64,
     pass_hist: BTreeMap<String, u64>,
 }
 
@@ -735,6 +756,7 @@ impl Agg {
         self.diagnostics += st.diagnostics;
         self.labels_checked += st.labels_checked;
         self.reads += st.reads;
+        self.max_reads = self.max_reads.max(st.reads);
         *self.pipelines.entry(c.pipeline.clone()).or_insert(0) += 1;
         *self.results.entry(format!("{}:{}", c.pipeline, st.result)).or_insert(0) += 1;
         let b = match st.max_passes {
@@ -872,11 +894,13 @@ pub fn main(cli: &Cli) -> i32 {
     let mut results = BTreeMap::new();
     let mut pass_hist = BTreeMap::new();
     let mut max_passes = 0u64;
+    let mut max_reads = 0u64;
     for s in &sup.stats {
         for key in ["runs", "invocations", "diagnostics", "labels_checked", "runs_with_fault_fired", "reads"] {
             *tot.entry(key.to_string()).or_insert(0) += s.get(key).and_then(|x| x.as_u64()).unwrap_or(0);
         }
         max_passes = max_passes.max(s.get("max_passes").and_then(|x| x.as_u64()).unwrap_or(0));
+        max_reads = max_reads.max(s.get("max_reads").and_then(|x| x.as_u64()).unwrap_or(0));
         add_u64(&mut faults, s.get("faults_fired"));
         add_u64(&mut pipelines, s.get("pipelines"));
         add_u64(&mut results, s.get("results"));
@@ -952,6 +976,8 @@ pub fn main(cli: &Cli) -> i32 {
         ev.set(k, json!(v));
     }
     ev.set("max_passes_of_any_run", json!(max_passes));
+    ev.set("max_file_reads_of_any_run", json!(max_reads));
+    ev.set("file_read_budget", json!(READ_BUDGET));
     ev.set("pass_count_histogram", json!(pass_hist));
     ev.set("fault_kinds_injected", json!(faults));
     ev.set("pipelines", json!(pipelines));
